@@ -14,6 +14,33 @@ for line in p.stdout.splitlines():
         (passed if e["Action"] == "pass" else failed).add("%s::%s" % (e["Package"], e["Test"]))
 base = set(json.load(open("/root/.vp/BASELINE.json"))["stable_pass"])
 missing = sorted(base - passed)
+# The suite has timing-sensitive tests; when the machine is loaded they time out. Re-run
+# each missing top-level test alone (up to 3 times) before calling it missing.
+import re
+still = []
+for m in missing:
+    pkg, test = m.split("::", 1)
+    top = test.split("/")[0]
+    ok = False
+    for _ in range(3):
+        q = subprocess.run(["go", "test", "-json", "-vet=off", "-count=1", "-run", "^%s$" % re.escape(top), pkg], cwd="/repo", env=env, capture_output=True, text=True)
+        res = {}
+        for line in q.stdout.splitlines():
+            try:
+                e = json.loads(line)
+            except Exception:
+                continue
+            if e.get("Test") and e.get("Action") in ("pass", "fail"):
+                res[e["Test"]] = e["Action"]
+        if res.get(test) == "pass":
+            ok = True
+            break
+    if ok:
+        passed.add(m)
+        print("  (passed when re-run alone: %s)" % m)
+    else:
+        still.append(m)
+missing = still
 print("baseline stable_pass=%d passed_now=%d failed_now=%d missing_from_baseline=%d" % (len(base), len(passed), len(failed), len(missing)))
 for m in missing[:40]:
     print("  MISSING", m)
